@@ -325,6 +325,99 @@ def case_pair(case):
     return {"v": v, "t": t, "o": "%d/%.3f/%d" % (n, d0, nan_self), "nt": True}
 
 
+REP_SCALES = [1e-9, -1e-6, 1e-3, 1.0, -1e3, 1e6, -1e9, 1e-12, 1e12]
+
+
+def case_rep_scales(case):
+    """Projective coordinates are homogeneous: lambda * x is the same point for EVERY non-zero lambda, tiny and huge ones
+    included.  For two lattice points and every pair of scales: all charts of lambda x (alone, and of a composite whose
+    units carry all the scales), d(lambda x, mu y) against the Klein metric, the models' own closed-form metrics on the
+    coordinates the library reports, unit hyperboloid coordinates and the round trip through them."""
+    n, kp, kq, same = case["n"], np.asarray(case["p"], dtype=float), np.asarray(case["q"], dtype=float), case["same"]
+    ideal = case.get("ideal", False)
+    v, t, seen = [], 0, set()
+
+    def add(key, msg):
+        if key not in seen:
+            seen.add(key)
+            v.append({"key": key, "msg": msg})
+
+    def cls(s):
+        return "tiny" if abs(s) < 1e-2 else ("huge" if abs(s) > 1e2 else "unit")
+    worst = 0.0
+    if ideal:
+        for i, s in enumerate(REP_SCALES):
+            P = build(oracle_coords("projective", kp, s), "projective", VIAS[i % 2])
+            vv = []
+            tt, w = check_all_charts(P, kp, True, "H^%d ideal point %r from projective coordinates scaled by %g" % (n, kp.tolist(), s), vv)
+            t += tt + 1
+            worst = max(worst, w)
+            for x in vv:
+                add(x["key"] + "/representative-scale/" + cls(s), x["msg"])
+        return {"v": v, "t": t, "o": "%d/ideal/%d" % (n, int(np.ceil(np.log10(worst + 1e-12)))), "nt": True}
+    d0 = 0.0 if same else float(hyp.dist_in_model("klein", kp, kq))
+    tol = TOL * (1.0 + d0)
+    for i, s in enumerate(REP_SCALES):
+        P = build(oracle_coords("projective", kp, s), "projective", VIAS[i % 2])
+        who = "H^%d point %r from projective coordinates scaled by %g" % (n, kp.tolist(), s)
+        vv = []
+        tt, w = check_all_charts(P, kp, False, who, vv)
+        t += tt + 1
+        worst = max(worst, w)
+        for x in vv:
+            add(x["key"] + "/representative-scale/" + cls(s), x["msg"])
+        h = np.array(P.coords("hyperboloid"), dtype=float)
+        if h.shape == (n + 1,) and np.all(np.isfinite(h)):
+            if not abs(hyp.mink(h, h) + 1.0) <= TOL * (1.0 + float(h[0]) ** 2):
+                add("coords/hyperboloid/not-unit/representative-scale/" + cls(s), "%s: <h,h> = %r for h = %r" % (who, float(hyp.mink(h, h)), h.tolist()))
+            vv = []
+            tt, w = check_all_charts(build(h, "hyperboloid"), kp, False, who + " -> Point(coords(hyperboloid), model=hyperboloid)", vv)
+            t += tt + 2
+            for x in vv:
+                add("roundtrip-hyperboloid/" + x["key"] + "/representative-scale/" + cls(s), x["msg"])
+        for j, u in enumerate(REP_SCALES):
+            Pn = build(oracle_coords("projective", kp, s), "projective", VIAS[(i + j) % 2])
+            Q = build(oracle_coords("projective", kq, u), "projective", VIAS[j % 2])
+            d = float(_dist(Pn, Q))
+            d2 = float(_dist(Q, Pn))
+            t += 4
+            wd = "H^%d d(projective*%g %r, projective*%g %r)" % (n, s, kp.tolist(), u, kq.tolist())
+            c2 = "%s-%s" % tuple(sorted((cls(s), cls(u))))
+            if not (d == d and np.isfinite(d) and d >= 0 and abs(d - d0) <= tol):
+                add("metric/distance/representative-scale/" + c2, "%s = %r, Klein metric gives %.12g" % (wd, d, d0))
+                continue
+            if not abs(d - d2) <= TOL:
+                add("metric/symmetry/representative-scale/" + c2, "%s = %.15g but reversed %.15g" % (wd, d, d2))
+            if j in (i, (i + 4) % len(REP_SCALES)):
+                tol_cf = TOL_SQRT if same else tol
+                for m in hyp.MODELS:
+                    dm = float(dist_own(m, Pn.coords(m), Q.coords(m)))
+                    t += 2
+                    if not abs(d - dm) <= tol_cf:
+                        add("metric/own-coordinates/%s/representative-scale/%s" % (m, c2),
+                            "%s = %.12g, closed-form %s metric on the library's own coordinates gives %.12g" % (wd, d, m, dm))
+    # one composite whose units carry all the scales (normalisation is per unit)
+    pts = [kp if i % 2 == 0 else kq for i in range(len(REP_SCALES))]
+    arr = np.stack([oracle_coords("projective", k, s) for k, s in zip(pts, REP_SCALES)])
+    C = build(arr, "projective")
+    t += 1
+    for m in hyp.MODELS:
+        c = np.asarray(C.coords(m))
+        t += 1
+        err, tl, bad = chart_error(m, c, np.stack(pts), False)
+        if bad is not None or not err <= tl:
+            add("coords/%s/composite/representative-scale" % m, "H^%d composite of %r / %r with unit scales %r: coords(%s) %s" % (
+                n, kp.tolist(), kq.tolist(), REP_SCALES, m, bad or "differs from the oracle chart by %.3g" % err))
+    one = build(oracle_coords("projective", kq, 1.0), "projective")
+    dd = np.asarray(_dist(C, one), dtype=float)
+    t += 2
+    want = np.array([0.0 if (same or i % 2 == 1) else float(hyp.dist_in_model("klein", k, kq)) for i, k in enumerate(pts)])
+    if dd.shape != want.shape or not np.all(np.abs(dd - want) <= TOL * (1.0 + want)):
+        add("metric/distance/composite/representative-scale", "H^%d composite of %r / %r with unit scales %r: distances to %r are %r, Klein metric gives %r" % (
+            n, kp.tolist(), kq.tolist(), REP_SCALES, kq.tolist(), dd.tolist(), want.tolist()))
+    return {"v": v, "t": t, "o": "%d/%.3f/%d" % (n, d0, int(np.ceil(np.log10(worst + 1e-12)))), "nt": True}
+
+
 def case_triangle(case):
     n, shift, pts = case["n"], case["shift"], [np.asarray(p, dtype=float) for p in case["pts"]]
     N = len(pts)
@@ -1232,6 +1325,17 @@ def run(ctx):
              for n in dims for i, p in enumerate(lat[n][0]) for j, qq in enumerate(lat[n][0])]
     ctx.product("metric-pairs", "checks.c01:case_pair", cases, chunk=8,
                 domains={"dimensions": dims, "ordered pairs": len(cases), "(model, representative)^2": len(VARIANTS) ** 2})
+
+    cases = [{"n": n, "p": p, "q": qq, "same": i == j}
+             for n in dims for i, p in enumerate(lat[n][0][:4]) for j, qq in enumerate(lat[n][0][:4])]
+    cases += [{"n": n, "p": k, "q": k, "same": True, "ideal": True} for n in dims for k in lat[n][1]]
+    ctx.product("representative-scales", "checks.c01:case_rep_scales", cases, chunk=4,
+                domains={"dimensions": dims, "scales of the projective representative": REP_SCALES,
+                         "interior": "all ordered pairs (x = x included) of the first 4 lattice points x every ordered pair of scales; one composite whose units carry all the scales",
+                         "ideal": "every ideal direction x every scale (charts only)",
+                         "demands": "all charts = oracle charts of the point, <h,h> = -1 and round trip through the hyperboloid coordinates, distance = Klein metric "
+                                    "= each model's closed-form metric on the library's own coordinates, symmetry"})
+    ctx.assume("representative scales: non-zero factors of modulus 1e-12 .. 1e12 (squares stay far inside the float64 range; factors beyond 1e+-150 are out of domain)")
 
     cases = [{"n": n, "shift": s, "pts": lat[n][0]} for n in dims for s in range(len(VARIANTS))]
     ctx.product("metric-triples", "checks.c01:case_triangle", cases, chunk=1,
